@@ -32,7 +32,7 @@ CHECKS = {
              "canaries behind the arrays. 5 000 / 120 000 histories.",
         note="Trusts FORMAT_NOTES.md as the statement of the published format and the small reader written from it; "
              "skipping-Huffman and n-bit payloads are checked structurally only; external elements and chunked images "
-             "are left out of the raw-location comparison; at Hsync points only the structural rules are checked.",
+             "are left out of the raw-location comparison; at Hsync points only the structural rules are checked. Session-view oracle: what a session reads of every object just before it closes must equal what a new session reads from the closed file (catches updates lost at close in all six interfaces without a model).",
         tech=TECH % ("", "oracle = independent format-only reader over the durable image at every close/flush point, differential against the library's own reads"),
     ),
     "C03": dict(
